@@ -262,7 +262,9 @@ where
         ops: Option<&mut Vec<AlignmentOperation>>,
         states: &'a [State<T, D>],
     ) -> Option<(D, D)> {
-        let pos = pos + 2; // in order to be comparable since self.pos starts at 2, not 0
+        // in order to be comparable since self.pos starts at 2, not 0; an end position
+        // that cannot be represented was never searched
+        let pos = pos.checked_add(2)?;
         if pos <= self.pos {
             return Some(self._traceback_at(pos, ops, states));
         }
